@@ -265,7 +265,31 @@ pub fn check_program(prog: &Program, seed: u64, thorough: bool, rep: &mut Report
     rep.eval(Some(&prog.to_text()));
 }
 
+/// tiny programs: each on a fresh manager (so that every constructor is also seen as the FIRST call of a
+/// manager's life) and, for one in eight, through the wrappers of a fresh thread
+fn check_tiny(prog: &Program, seed: u64, thorough: bool, rep: &mut Report) {
+    let mut rng = Rng::derive(seed, 0xC07, 2);
+    let mut m = ReManager::new();
+    rep.inc("histories_run");
+    if run_history(&mut m, prog, 0, &mut rng, rep, seed, thorough, "fresh manager").is_none() {
+        return;
+    }
+    if rng.chance(1, 8) {
+        let r = run_wrapped_thread(prog, 0, seed, thorough);
+        rep.inc("wrapper_threads_run");
+        rep.absorb(r);
+    }
+    if rng.chance(1, 6) {
+        let mut m2 = ReManager::new();
+        rep.inc("histories_run");
+        run_history(&mut m2, prog, 25, &mut rng, rep, seed, thorough, "noisy manager");
+    }
+    rep.eval(Some(&prog.to_text()));
+}
+
 pub fn run(p: &Params, rep: &mut Report) {
+    let stride = 1;
+    for_tiny_programs(p, rep, stride, p.size(200, 4000), |prog, seed, rep| check_tiny(prog, seed, p.thorough, rep));
     let n = p.size(12, 120);
     for_programs(p, rep, 7, n, &STD_WEIGHTS, (20, 45), |prog, seed, rep| check_program(prog, seed, p.thorough, rep));
 }
